@@ -17,6 +17,7 @@ import Proofs.Lemmas.Router.Rp2_Payload
 import Proofs.Lemmas.Router.Rp2_Qos2
 import Proofs.Lemmas.Router.Rp2_Examples
 import Proofs.Lemmas.Router.Rp2_Commits
+import Proofs.Lemmas.Router.Rp11_Reach
 namespace C06
 open Router
 
@@ -282,6 +283,61 @@ theorem release_without_publish_forwards_nothing (s s' : RState) (id : Nat) (cid
     (h : handlePacket s id cid (.pubrel pkid hp) fl = .ok (s', fl')) :
     s'.datalog = s.datalog ∧ s'.ghost = s.ghost ++ [.committed id (.pubcomp pkid)] ∧ fl'.disconnect = true :=
   pubrel_nothing_recorded hc hrec h
+
+/-! ### replies are not withheld at idle (invariant over all reachable states) -/
+
+/-- C06 `no_reply_left_at_idle`. In every reachable state a connection that is `Paused(Caughtup)` —
+    idle: nothing is scheduled for it, no `consume` call will visit it until new data, a new filter or
+    an ack of its client arrives — has an empty ack log: every reply the broker registered for its
+    request packets has been moved to its link buffer (by `ack_device_data`, the first thing `consume`
+    does for a connection). The broker does not sit on a registered reply. -/
+theorem no_reply_left_at_idle {cfg : Config} {s : RState} (hr : Reachable cfg s) {id : Nat} {c : Conn}
+    (hc : getConn s id = some c) (hidle : c.tracker.status = .paused .caughtup) : c.acks.committed = [] :=
+  AI.reachable hr id c hc hidle
+
+/-- the same read forwards: a live connection with a registered, not yet flushed reply is either
+    `Ready` and in the ready queue (a `consume` call will serve it and flushes the ack log first), or
+    `Paused(Busy)` (its link buffer was full or it has just registered: the link's `Ready` event
+    reschedules it), or `Paused(InflightFull)` with a full outgoing window (an ack of its client
+    reschedules it) -/
+theorem pending_reply_is_scheduled {cfg : Config} {s : RState} (hr : Reachable cfg s) {id : Nat} {c : Conn}
+    (hc : getConn s id = some c) (hne : c.acks.committed ≠ []) :
+    (c.tracker.status = .ready ∧ id ∈ s.readyqueue) ∨ c.tracker.status = .paused .busy ∨
+    (c.tracker.status = .paused .inflightFull ∧ c.out.inflight.length = MAX_INFLIGHT) := by
+  have hs := SI.reachable hr
+  have hout := (Inv1.reachable hr).out id c hc
+  cases hst : c.tracker.status with
+  | ready => exact .inl ⟨rfl, hs.rq id c hc hst⟩
+  | paused r =>
+    cases r with
+    | caughtup => exact absurd (AI.reachable hr id c hc hst) hne
+    | busy => exact .inr (.inl rfl)
+    | inflightFull => exact .inr (.inr ⟨rfl, Nat.le_antisymm hout.1 ((hs.ci id c hc).2 hst)⟩)
+
+/-- the flush itself: a `consume` call that serves connection `id` leaves its ack log empty at the
+    moment the sweep starts (together with `flush_moves_all_replies_in_order`: the replies are then
+    in the link buffer, in order) -/
+theorem flush_empties_the_ack_log (s : RState) (id : Nat) (d : Conn)
+    (hd : getConn (ackDeviceData s id) id = some d) : d.acks.committed = [] :=
+  ackDeviceData_committed hd
+
+/-- non-vacuity (kernel-evaluated): after CONNECT, a PINGREQ, the DeviceData event and two `consume`
+    calls the connection is `Paused(Caughtup)` and its ack log is empty; before the `consume` calls it
+    was `Ready` with the CONNACK and the PINGRESP registered -/
+example :
+    (match runX (init ⟨10, 1024, 2, 10, .roundRobin⟩)
+        [(.connect ⟨0, "a", true, false, 0, none⟩, []), (.push 0 .pingreq, []), (.event 0 .deviceData, [])] with
+     | .ok s => decide ((s.conns.get? 0).map (fun c => (c.tracker.status, c.acks.committed)) =
+                  some (.ready, [Ack.connack 0 false, Ack.pingresp]))
+     | .error _ => false) = true := by decide
+
+example :
+    (match runX (init ⟨10, 1024, 2, 10, .roundRobin⟩)
+        [(.connect ⟨0, "a", true, false, 0, none⟩, []), (.push 0 .pingreq, []), (.event 0 .deviceData, []),
+         (.consume, []), (.consume, [])] with
+     | .ok s => decide ((s.conns.get? 0).map (fun c => (c.tracker.status, c.acks.committed)) =
+                  some (.paused .caughtup, []))
+     | .error _ => false) = true := by decide
 
 /-! ### non-vacuity: the hypotheses are satisfiable on a concrete router state -/
 
